@@ -119,6 +119,7 @@ pub fn programs() -> Vec<Prog> {
     p.push(Some("f"), Stmt::Not(3, 3));
     p.push(None, Stmt::Ret);
     v.push(Prog::new("jsrr", p, true));
+    v.push(every_kind());
     // leaves user space upwards: a main routine ending in a bare RET with R7 still at its initial
     // xFDFF (word there is 0 = a never-taken BR), so PC reaches xFE00
     let mut p = Program::default();
@@ -142,6 +143,38 @@ pub fn programs() -> Vec<Prog> {
     p.push(Some("g"), Stmt::Fill(Lit::hex(0xFFFF)));
     v.push(Prog::new("jump-to-xFFFF", p, true));
     v
+}
+
+/// Straight-line program with one instruction of every opcode and every output trap (the debugger
+/// and the run loop must agree, for each of them, that it is an ordinary instruction to execute).
+pub fn every_kind() -> Prog {
+    let mut p = Program::default();
+    p.push(None, Stmt::Mem(PcRel::Lea, 0, lbl("msg")));
+    p.push(None, Stmt::Named(0x22, "puts"));
+    p.push(None, Stmt::Named(0x24, "putsp"));
+    p.push(Some("loop"), Stmt::Mem(PcRel::Ld, 1, lbl("val")));
+    p.push(None, Stmt::Mem(PcRel::Ldi, 2, lbl("ptr")));
+    p.push(None, Stmt::Ldr(3, 0, Lit::dec(1)));
+    p.push(None, Stmt::Add(4, 1, Src2::Reg(2)));
+    p.push(None, Stmt::And(5, 4, Src2::Imm(Lit::dec(15))));
+    p.push(None, Stmt::Not(6, 5));
+    p.push(Some("after"), Stmt::Named(0x27, "reg"));
+    p.push(None, Stmt::Mem(PcRel::St, 4, lbl("val")));
+    p.push(None, Stmt::Mem(PcRel::Sti, 5, lbl("ptr")));
+    p.push(None, Stmt::Str(6, 0, Lit::dec(2)));
+    p.push(None, Stmt::Add(0, 5, Src2::Imm(Lit::dec(0))));
+    p.push(None, Stmt::Named(0x26, "putn"));
+    p.push(None, Stmt::Named(0x21, "out"));
+    p.push(None, Stmt::Trap(Lit::hex(0x27)));
+    p.push(None, Stmt::Push(4));
+    p.push(None, Stmt::Pop(5));
+    p.push(None, Stmt::Br(0b111, "brnzp".into(), lbl("end")));
+    p.push(None, Stmt::Add(7, 7, Src2::Imm(Lit::dec(1))));
+    p.push(Some("end"), Stmt::Named(0x25, "halt"));
+    p.push(Some("msg"), Stmt::Stringz("ab".into()));
+    p.push(Some("val"), Stmt::Fill(Lit::hex(0x0041)));
+    p.push(Some("ptr"), Stmt::Fill(Lit::hex(0x3017)));
+    Prog::new("every-instruction-kind", p, true)
 }
 
 /// How the script ends.
